@@ -20,6 +20,9 @@ pub fn c13_docs() -> Vec<InitialDoc> {
         // call changes nothing" are judged here
         InitialDoc { text: "<r>t<![CDATA[c]]>&amp;<a/>u</r>", foreign: None, expanded: true },
         InitialDoc { text: DOC_MIXED, foreign: None, expanded: true },
+        // an attribute defaulted from the DTD: its nodes belong to the declaration (no reference model: no panic, and a
+        // failed call changes nothing)
+        InitialDoc { text: "<!DOCTYPE r [<!ATTLIST a d CDATA \"v\">]><r><a/><a d=\"x\"/></r>", foreign: None, expanded: true },
     ]
 }
 
